@@ -73,6 +73,7 @@ type FuncData struct {
 	native    func(it *Interp, this Value, args []Value, newTarget *Object) Value
 	name      string
 	classNd   *Node // for default constructors
+	fromEval  bool  // created while eval code was running (goja resolves its this / names dynamically)
 	selfNamed bool  // created by a named function expression (its name is bound in an own outer environment)
 }
 
